@@ -10,15 +10,24 @@ package hparser
 //     under all 8 assignments vs the tree's own truth table; in(...) vs disjunction; words vs conjunction.
 
 import (
+	"context"
 	"encoding/json"
 	"fmt"
+	"os"
 	"strings"
 	"testing"
 	"time"
 
+	"github.com/ozontech/seq-db/consts"
+	"github.com/ozontech/seq-db/fracmanager"
 	"github.com/ozontech/seq-db/parser"
+	pb "github.com/ozontech/seq-db/pkg/storeapi"
 	"github.com/ozontech/seq-db/seq"
+	"github.com/ozontech/seq-db/storeapi"
+	"github.com/ozontech/seq-db/zzverif/refdb"
+	"github.com/ozontech/seq-db/zzverif/vfrac"
 	"github.com/ozontech/seq-db/zzverif/vlib"
+	"google.golang.org/grpc/metadata"
 )
 
 var c12Mapping = seq.Mapping{
@@ -430,11 +439,87 @@ func c12Trees(leaves int, fn func(*bnode)) {
 	}
 }
 
+
+func c12StoreLanguages(r *vlib.Run) {
+	mk := func() (*storeapi.Store, pb.StoreApiClient, string) {
+		dir := vfrac.MkTmp("c12s")
+		st, err := storeapi.NewStore(context.Background(), storeapi.StoreConfig{
+			FracManager: fracmanager.Config{DataDir: dir, FracSize: 100 * consts.MB, TotalSize: 1000 * consts.MB, CacheSize: 10 * consts.MB, MaintenanceDelay: time.Hour},
+			API:         storeapi.APIConfig{StoreMode: storeapi.StoreModeCold, Search: storeapi.SearchConfig{WorkersCount: 2, FractionsPerIteration: 2}},
+		}, c12MP{})
+		if err != nil {
+			panic(err)
+		}
+		cl := storeapi.NewClient(st)
+		var docs []refdb.Doc
+		for i, v := range []string{"a", "'a'", "a#b", "a\tb", `a\tb`, "A"} {
+			docs = append(docs, refdb.Doc{ID: refdb.ID{MID: uint64(vfrac.BaseMID + i), RID: uint64(i + 1)}, Body: fmt.Sprintf(`{"i":%d}`, i), Toks: []refdb.Tok{{F: "k", V: v}}})
+		}
+		d, m := vfrac.BuildBulk(docs, 1)
+		if _, err := cl.Bulk(context.Background(), &pb.BulkRequest{Count: int64(len(docs)), Docs: d, Metas: m}); err != nil {
+			panic(err)
+		}
+		st.WaitIdle()
+		return st, cl, dir
+	}
+	texts := []string{`k:'a'`, `k:a#b`, `k:"a\tb"`, `k:a`, `k:A`, `k:a OR k:A`}
+	ask := func(cl pb.StoreApiClient, q, lang string) string {
+		ctx := metadata.NewIncomingContext(context.Background(), metadata.Pairs("use-seq-ql", map[string]string{"seqql": "true", "legacy": "false"}[lang]))
+		resp, err := cl.Search(ctx, &pb.SearchRequest{Query: q, From: 0, To: int64(vfrac.MaxMID), Size: 100, WithTotal: true})
+		if err != nil {
+			return "error"
+		}
+		if resp.Code != 0 {
+			return "code " + resp.Code.String()
+		}
+		var b strings.Builder
+		for _, x := range resp.IdSources {
+			fmt.Fprintf(&b, "%d ", x.Id.Rid)
+		}
+		return fmt.Sprintf("ids=[%s] total=%d", b.String(), resp.Total)
+	}
+	stL, clL, dL := mk()
+	stS, clS, dS := mk()
+	stM, clM, dM := mk()
+	defer func() {
+		for _, st := range []*storeapi.Store{stL, stS, stM} {
+			st.Stop()
+		}
+		for _, d := range []string{dL, dS, dM} {
+			os.RemoveAll(d)
+		}
+	}()
+	for _, q := range texts {
+		wantL, wantS := ask(clL, q, "legacy"), ask(clS, q, "seqql")
+		for round, lang := range []string{"legacy", "seqql", "legacy", "seqql"} {
+			r.Add("evaluations", 1)
+			r.Add("meaning_cases", 1)
+			want := map[string]string{"legacy": wantL, "seqql": wantS}[lang]
+			if got := ask(clM, q, lang); got != want {
+				r.Violation(fmt.Sprintf("store query entry: %q as %s answers differently after the same text was sent in the other language", q, lang), c12Case{Kind: "store-language", Input: q, Parser: lang},
+					fmt.Sprintf("round %d: got %s, a store that only ever saw %s answers %s", round, got, lang, want))
+			}
+		}
+		if wantL != wantS {
+			r.Distinct("nontrivial", "store-language|"+q)
+		}
+	}
+}
+
+type c12MP struct{}
+
+// one mapping object for the life of the process, as a real mapping provider hands out
+var c12StoreMapping = seq.Mapping{"k": seq.NewSingleType(seq.TokenizerTypeKeyword, "", 0)}
+
+func (c12MP) GetMapping() seq.Mapping { return c12StoreMapping }
+
 func TestVerifC12(t *testing.T) {
 	r := vlib.NewRun("C12")
 	var rc c12Case
 	if r.LoadReplay(&rc) {
-		if rc.Kind == "deep" {
+		if rc.Kind == "store-language" {
+			c12StoreLanguages(r)
+		} else if rc.Kind == "deep" {
 			pool := vlib.NewPool("c12", 1)
 			defer pool.Close()
 			var res c12Res
@@ -607,6 +692,10 @@ func TestVerifC12(t *testing.T) {
 			}
 		}
 	}
+	// ---- (a3) the store's query entry point: the language is chosen per request (header use-seq-ql). Texts that are
+	// valid in both languages but mean different things are sent to one store in alternating languages; every
+	// answer must equal the answer of a store that only ever saw that language.
+	c12StoreLanguages(r)
 	// ---- (b) meaning ----
 	kwLower := func(s string) string { return s }
 	kwUpper := func(s string) string { return strings.ToUpper(s) }
@@ -684,7 +773,7 @@ func TestVerifC12(t *testing.T) {
 	r.Sample(c12Case{Kind: "meaning", Input: "not (k:a or not k:b) and k:c", Parser: "seqql"})
 	ev := r.Get("evaluations")
 	r.Finish(t, "model_checking",
-		fmt.Sprintf("totality: every string of <=%d lexemes over a %d-lexeme alphabet (field names of every mapping type incl. object/tags/nested/exists/multi-type/unmapped, all punctuation of both grammars, keywords, quotes of three kinds, backslash, comment, invalid UTF-8, the private-use wildcard rune) plus every string '<field>:' + %d lexemes, through ParseSeqQL and ParseQuery (full and nil mapping) and ParseAggregationFilter, each under recover, in worker subprocesses (hang => bisection); three deeply nested queries (4 M levels of parentheses in both parsers, 4 M NOTs in the legacy parser; the process must survive); single-edit mutation closure (delete / duplicate / insert / substitute by every lexeme at every position) of 8 seed queries. meaning: every boolean tree with <=4 leaves over 3 atoms with NOT at every node (double NOT at the root), minimal and full parentheses, both languages, all 8 assignments; 10 ordinary queries re-parsed after each of 9 queries carrying a 5000-byte token (the AST must not depend on earlier requests); in(...) lists of every length 1..130 in 4 query shapes, judged on one document per listed value plus an unlisted one; text-word conjunction. distinct_nontrivial = distinct well-formed queries whose meaning was compared", maxLen, len(c12Lexemes), maxLen),
+		fmt.Sprintf("totality: every string of <=%d lexemes over a %d-lexeme alphabet (field names of every mapping type incl. object/tags/nested/exists/multi-type/unmapped, all punctuation of both grammars, keywords, quotes of three kinds, backslash, comment, invalid UTF-8, the private-use wildcard rune) plus every string '<field>:' + %d lexemes, through ParseSeqQL and ParseQuery (full and nil mapping) and ParseAggregationFilter, each under recover, in worker subprocesses (hang => bisection); three deeply nested queries (4 M levels of parentheses in both parsers, 4 M NOTs in the legacy parser; the process must survive); single-edit mutation closure (delete / duplicate / insert / substitute by every lexeme at every position) of 8 seed queries. meaning: every boolean tree with <=4 leaves over 3 atoms with NOT at every node (double NOT at the root), minimal and full parentheses, both languages, all 8 assignments; 6 texts that are valid in both languages sent to one store in alternating languages (each answer equals that of a store that only saw that language); 10 ordinary queries re-parsed after each of 9 queries carrying a 5000-byte token (the AST must not depend on earlier requests); in(...) lists of every length 1..130 in 4 query shapes, judged on one document per listed value plus an unlisted one; text-word conjunction. distinct_nontrivial = distinct well-formed queries whose meaning was compared", maxLen, len(c12Lexemes), maxLen),
 		map[string]any{
 			"states":                        r.Get("totality_strings") + r.Get("mutation_strings") + r.Get("meaning_cases"),
 			"transitions":                   ev,
